@@ -57,55 +57,39 @@ def run_unit(u, desc, tier, seed):
     zc = ctx.zc
     kap = kappa(modname, f)
     G = C.metric(f)
-    outs = {}
-    with patched(mod):
-        if group == 'matrices':
-            A = mod.form_a_mat(cell)
-            B = mod.form_b_mat(cell)
-            V = mod.cell_volume(cell)
-            Ai = mod.form_a_mat_inv(cell)
-            outs = {'A': A, 'B': B, 'V': V, 'Ainv': Ai}
-        elif group == 'sintl':
-            hkl = [f.var('h'), f.var('k'), f.var('l')]
-            stl = mod.sintl(cell, hkl)
-            B = mod.form_b_mat(cell)
-            outs = {'stl': stl, 'B': B}
-        elif group == 'a_roundtrip':
-            A = mod.form_a_mat(cell)
-            cell2 = mod.a_to_cell(A)
-            outs = {'cell2': cell2}
-        elif group == 'b_roundtrip':
-            B = mod.form_b_mat(cell)
-            cell2 = mod.b_to_cell(B)
-            outs = {'cell2': cell2}
-        elif group == 'cell_invert':
-            cs = mod.cell_invert(cell)
-            cell2 = mod.cell_invert(cs)
-            outs = {'cstar': cs, 'cell2': cell2}
-    u.paths = 1
+    def body():
+        ctx.domain = []
+        with patched(mod):
+            if group == 'matrices':
+                return {'A': mod.form_a_mat(cell), 'B': mod.form_b_mat(cell), 'V': mod.cell_volume(cell), 'Ainv': mod.form_a_mat_inv(cell),
+                        'domain': list(ctx.domain)}
+            if group == 'sintl':
+                hkl = [f.var('h'), f.var('k'), f.var('l')]
+                return {'stl': mod.sintl(cell, hkl), 'B': mod.form_b_mat(cell), 'domain': list(ctx.domain)}
+            if group == 'a_roundtrip':
+                return {'cell2': mod.a_to_cell(mod.form_a_mat(cell)), 'domain': list(ctx.domain)}
+            if group == 'b_roundtrip':
+                return {'cell2': mod.b_to_cell(mod.form_b_mat(cell)), 'domain': list(ctx.domain)}
+            if group == 'cell_invert':
+                cs = mod.cell_invert(cell)
+                return {'cstar': cs, 'cell2': mod.cell_invert(cs), 'domain': list(ctx.domain)}
+
+    leaves, exh = ctx.explore(body, max_paths=64)
+    u.exhaustive = exh
     u.decisions = ctx.decisions
-    pre = ctx.base() + ctx.pc
+    base = ctx.base()
     if group == 'sintl':
         h, k, l = f.var('h'), f.var('k'), f.var('l')
-        pre = pre + [z3.Or(zc.cmp0(h, '!='), zc.cmp0(k, '!='), zc.cmp0(l, '!='))]
-    # reachability twin + witness validation against the real functions
-    hv = dict(C.CELL_HINT)
-    if group == 'sintl':
-        hv.update({'h': '1', 'k': '-2', 'l': '3'})
-    model = u.reach(desc['name'], pre, hints=C.hints_from(zc, hv))
-    if model is not None:
-        env = C.env_from_model(f, model)
-        if validate(mod, modname, group, outs, env):
-            u.validated += 1
-        else:
-            u.add(desc['name'] + '/translator', 'error', 'symbolic outputs disagree with the real function at the path witness')
-    # repository test inputs through both
-    for tc in ([3, 4, 5, 80, 95, 100], [2, 3, 4, 90, 90, 90], [7.1, 8.2, 9.3, 65, 110, 99]):
-        env = env_for_cell(f, tc, hkl=(1, -2, 3))
-        if validate(mod, modname, group, outs, env):
-            u.validated += 1
-        else:
-            u.add(desc['name'] + '/translator', 'error', 'symbolic outputs disagree with the real function on test cell %s' % tc)
+        base = base + [z3.Or(zc.cmp0(h, '!='), zc.cmp0(k, '!='), zc.cmp0(l, '!='))]
+    for li, leaf in enumerate(leaves):
+        u.paths += 1
+        tag = '' if li == 0 else '/path%d' % li
+        pre = base + leaf['pc']
+        prove_leaf(u, desc, mod, modname, group, f, ctx, cell, G, kap, leaf, pre, tag, first=(li == 0))
+
+
+def prove_leaf(u, desc, mod, modname, group, f, ctx, cell, G, kap, leaf, pre, tag, first):
+    zc = ctx.zc
 
     def rp(key):
         def replay(model):
@@ -114,15 +98,37 @@ def run_unit(u, desc, tier, seed):
             hklf = [env.get('h', 1.0), env.get('k', 0.0), env.get('l', 0.0)]
             bad = numeric(modname, group, cellf, hklf)
             rec = {'module': modname, 'group': group, 'cell': cellf, 'hkl': hklf}
-            hit = [b for b in bad if key.endswith(b[0]) or True]
             if bad:
                 return True, rec, '; '.join('%s: %s' % b for b in bad[:3])
             return False, rec, 'numeric property holds at the model (cell=%s)' % (cellf,)
         return replay
 
     def P(name, goal, **kw):
-        key = 'C01/%s.%s' % (modname, name)
+        key = 'C01/%s.%s%s' % (modname, name, tag)
         u.prove(key, pre, goal, replay=rp(key), detail=name, sample=True, **kw)
+
+    if leaf['exception'] is not None:
+        P('%s/no-exception' % group, z3.BoolVal(False))
+        return
+    outs = leaf['result']
+    hv = dict(C.CELL_HINT)
+    if group == 'sintl':
+        hv.update({'h': '1', 'k': '-2', 'l': '3'})
+    model = u.reach(desc['name'] + tag, pre, hints=C.hints_from(zc, hv))
+    if model is not None:
+        env = C.env_from_model(f, model)
+        if validate(mod, modname, group, outs, env):
+            u.validated += 1
+        else:
+            u.add(desc['name'] + tag + '/translator', 'error', 'symbolic outputs disagree with the real function at the path witness')
+    # repository test inputs through both (on the path they belong to)
+    for tc in ([3, 4, 5, 80, 95, 100], [2, 3, 4, 90.5, 91, 89], [7.1, 8.2, 9.3, 65, 110, 99]):
+        env = env_for_cell(f, tc, hkl=(1, -2, 3))
+        if C.pc_holds(zc, leaf['pc'], env):
+            if validate(mod, modname, group, outs, env):
+                u.validated += 1
+            else:
+                u.add(desc['name'] + '/translator', 'error', 'symbolic outputs disagree with the real function on test cell %s' % tc)
 
     if group == 'matrices':
         A, B, V, Ai = outs['A'], outs['B'], outs['V'], outs['Ainv']
@@ -181,8 +187,8 @@ def run_unit(u, desc, tier, seed):
         for i in (3, 4, 5):
             P('cell_invert(cell_invert)/angle%d' % i, C.resid_goal(zc, [c2[i].c - cell[i].c]))
     # sqrt-domain side obligations recorded by the engine
-    for n, (kind, formula, pc) in enumerate(ctx.domain):
-        u.prove('C01/%s.%s/domain%d:%s' % (modname, group, n, kind), pre + pc, formula, replay=rp('domain'), detail=kind, timeout=30)
+    for n, (kind, formula, pc) in enumerate(outs['domain']):
+        u.prove('C01/%s.%s/domain%d:%s%s' % (modname, group, n, kind, tag), pre, formula, replay=rp('domain'), detail=kind, timeout=30)
 
 
 def env_for_cell(f, cell, hkl=(1, 0, 0)):
